@@ -186,6 +186,10 @@ def run(ctx):
             customs[s], serves[s] = make_handlers(s, P, forms[s], rng)
             if not serves[s] and present[s]:
                 ctx.count('deferrals')
+        if present['own'] and present['outer2'] and rng.random() < 0.5:
+            # ONE handler object given to the innermost class and to the outermost one (a shared function / registry), another in between
+            customs['outer2'], serves['outer2'], forms['outer2'] = customs['own'], serves['own'], forms['own']
+            ctx.count('shared_handler_object_configurations')
         # expected winner
         order = ['call'] + (['own'] if present['own'] else ['inherited']) + ['outer1', 'outer2']
         winner = None
@@ -319,6 +323,36 @@ def run(ctx):
                 return
 
     drive.for_each_case(ctx, 'main', ctx.budget, body, gen=lambda c, r: Ty('int'), seconds=30)
+
+    # a field converter is the field's converter in BOTH directions, also for a field that is not read from data (init=False)
+    def body_initfalse(i, rng, ty, T):
+        kind = rng.choice(('init-false-default', 'init-false-post-init', 'kw-only', 'excluded-sibling'))
+        ns = {'__annotations__': {'a': int, 'total': int}, '__module__': __name__}
+        if kind == 'init-false-default':
+            ns['total'] = env.pfield(init=False, default=32, converter=StampConv('field'))
+        elif kind == 'init-false-post-init':
+            ns['total'] = env.pfield(init=False, converter=StampConv('field'))
+            ns['__post_init__'] = lambda self: object.__setattr__(self, 'total', self.a * 2)
+        elif kind == 'kw-only':
+            ns['total'] = env.pfield(kw_only=True, default=32, converter=StampConv('field'))
+        else:
+            ns['__annotations__'] = {'a': int, 'hidden': int, 'total': int}
+            ns['hidden'] = env.pfield(default=0, exclude=True)
+            ns['total'] = env.pfield(default=32, converter=StampConv('field'))
+        cls = type(f"KF{next(_serial)}", (env.PaneBase,), ns, out_format=rng.choice(('struct', 'tuple')), in_format=('struct', 'tuple'))
+        inst = observe(cls, 5)
+        ctx.count('field_converter_output_checks')
+        if inst.kind != 'value':
+            ctx.violation('precedence', 'initfalse', i, {'kind': kind, 'construct': inst.brief()}, mech='field-converter:construction-failed')
+            return
+        d = observe(inst.val.into_data)
+        ctx.case(('field-converter-output', kind, d.kind), nontrivial=True)
+        flat = list(d.val.values()) if d.kind == 'value' and isinstance(d.val, dict) else (list(d.val) if d.kind == 'value' else [])
+        stamped = [x for x in flat if isinstance(x, list) and len(x) == 3 and x[0] == 'out' and x[1] == 'field']
+        if d.kind != 'value' or len(stamped) != 1:
+            ctx.violation('precedence', 'initfalse', i, {'kind': kind, 'instance': short(inst.val), 'into_data': d.brief()}, mech=f"field-converter-not-used-on-output:{kind}")
+
+    drive.for_each_case(ctx, 'initfalse', 40, body_initfalse, gen=lambda c, r: Ty('int'))
 
     # the mapping form matches only the exact unparameterised type
     def body_exact(i, rng, ty, T):
